@@ -246,3 +246,42 @@ Proof.
   exists h1, F1, res, h2, dup, h3, docT, arrT.
   exact (conj Hrun1 (conj I1 (conj (NL1 NL) (conj Hrun2 (conj Hrun3 (conj I3 (conj (NL3 NL) (conj Etd Deq)))))))).
 Qed.
+
+(** ** outside [gdoc] (trees that are not JSON values): what the hypothesis is needed for *)
+(** two string nodes WITHOUT a valuestring under the same name: create_patches calls strcmp(from->valuestring,
+    to->valuestring).  (On /repo: SEGV in strcmp called from create_patches, cJSON_Utils.c:1241.) *)
+Definition gx_from3 : tree := exh_mk 1 c_cJSON_Object None 0 None [exh_mk 2 c_cJSON_String None 0 (Some 101%positive) []].
+Definition gx_to3 : tree := exh_mk 10 c_cJSON_Object None 0 None [exh_mk 11 c_cJSON_String None 0 (Some 111%positive) []].
+Definition gx_heap3 : heap :=
+  heap_of_forest [gx_from3; gx_to3] (list_to_map [(101%positive, [107; 0]); (111%positive, [107; 0])]).
+Lemma gx_string_without_value_null_deref :
+  MInv gx_heap3 [gx_from3; gx_to3] /\
+  out_err (GenPatchHeapDefs.cJSONUtils_GeneratePatchesCaseSensitive nofail (Some 1%positive) (Some 10%positive) gx_heap3) = Some NullDeref.
+Proof. split; [apply heap_of_forest_MInv; vm_compute; reflexivity|vm_compute; reflexivity]. Qed.
+
+(** a member of [to] WITHOUT a name (what cJSON_AddItemToArray(object, item) builds): compare_strings answers 1 for a NULL
+    name, compose_patch is called with suffix NULL: no memory error, but the operation is {"op":"add","path":"","value":5} —
+    it would replace the whole document.  Heap-level code, value-level model and /repo agree. *)
+Definition gx_from4 : tree := exh_mk 1 c_cJSON_Object None 0 None [exh_mk 2 c_cJSON_Number None 1 (Some 101%positive) []].
+Definition gx_to4 : tree :=
+  exh_mk 10 c_cJSON_Object None 0 None [exh_mk 11 c_cJSON_Number None 1 (Some 111%positive) []; exh_mk 12 c_cJSON_Number None 5 None []].
+Definition gx_St4 : gmap positive bytes := list_to_map [(101%positive, [97; 0]); (111%positive, [97; 0])].
+Definition gx_heap4 : heap := heap_of_forest [gx_from4; gx_to4] gx_St4.
+Definition gx_run4 : out (ptr * heap) :=
+  GenPatchHeapDefs.cJSONUtils_GeneratePatchesCaseSensitive nofail (Some 1%positive) (Some 10%positive) gx_heap4.
+Lemma gx_keyless_member_observed :
+  MInv gx_heap4 [gx_from4; gx_to4] /\ ~ gdoc gx_to4 /\
+  out_val gx_run4 = Some (Some 1000%positive) /\
+  (match PatchDefs.cJSONUtils_GeneratePatchesCaseSensitive (reify gx_St4 gx_from4) (reify gx_St4 gx_to4) with
+   | Ok (patches, _, _) =>
+       out_val (CoreOps.dump_node 50 (Some 1000%positive) (out_heap gx_run4 gx_heap4)) = Some (Some (patches, true)) /\
+       patches = PatchDefs.set_children PatchDefs.create_array
+                   (PatchDefs.compose_patch [] PatchDefs.s_add [] None (Some (Tree.Node c_cJSON_Number None 5 (dbl_of_int 5) None [])))
+   | _ => False
+   end).
+Proof.
+  split; [apply heap_of_forest_MInv; vm_compute; reflexivity|]. split.
+  - intros G. destruct (G gx_to4 ltac:(unfold gx_to4, exh_mk; rewrite nodes_t_unfold; by left)) as [Hk _].
+    apply (Hk eq_refl (exh_mk 12 c_cJSON_Number None 5 None [])); [|reflexivity]. right. by left.
+  - split; [vm_compute; reflexivity|]. vm_compute. split; reflexivity.
+Qed.
